@@ -2,7 +2,7 @@
 equivalent; free renderings starting in columns 1-5 are detected as free."""
 from mc import corpus, layout, explore, stream
 from mc import grammar as G
-from mc.base import try_parse, canon, h64, node_classes, first_diff, FortranStringReader
+from mc.base import text_of, try_parse, canon, h64, node_classes, first_diff, FortranStringReader
 from mc.runner import Result
 
 ID = "C05"
@@ -60,6 +60,15 @@ def sig(level, kind, feats):
     return "C05|%s:%s|%s" % (level, kind, ",".join(sorted(feats)) or "canonical")
 
 
+def same_code(tree, ref_text, cline, ic, ref):
+    """comments ignored: the same tree; comments kept: the same printed code
+    lines once the inserted comment lines are taken out"""
+    if ic:
+        return canon(tree) == ref
+    got = [l.strip() for l in text_of(tree).split("\n") if l.strip() and l.strip() != cline.strip()]
+    return got == [l.strip() for l in ref_text.split("\n") if l.strip()]
+
+
 def judge_fixed(lay, std, ref):
     out = []
     text = lay.text
@@ -105,6 +114,7 @@ def run(task):
             res.violation("C05|model:canonical-rejected|" + pid, str(o0.msg), {"pid": pid, "tier": tier, "vec": [], "mode": "fixed"})
             continue
         ref = canon(o0.tree)
+        ref_text = text_of(o0.tree)
         res.classes |= node_classes(o0.tree)
         # (1) free renderings with the first statement in columns 1-5
         if shard == 0:
@@ -119,6 +129,28 @@ def run(task):
                 res.outcomes["free-detect:" + mode] += 1
                 if mode != "free":
                     res.violation(sig("detect", "free-seen-as-" + mode, ["indent%d" % ind]), "%s: free rendering with indent %d classified %r\n%s" % (pid, ind, mode, text), {"pid": pid, "tier": tier, "mode": "free", "indent": ind}, cost=len(text))
+        # (1b) a long run of comment lines (licence header, commented-out
+        # block) in front of the first statement and between two statements:
+        # length must not matter (n = 1500 exceeds Python's default recursion depth)
+        if focus and shard == 0 and idxs == (0,) and name == layout.focus_programs()[0][0]:
+            ch0, lay0 = explore.run(lambda ch: layout.render_fixed(prog, ch, fopts), ())
+            fl = lay0.text.rstrip("\n").split("\n")
+            for n in (200, 1500):
+                for cline in ("C comment", "* star", "! bang", ""):
+                    for at in (0, 1):
+                        text = "\n".join(fl[:at] + [cline] * n + fl[at:]) + "\n"
+                        for ic in (True, False):
+                            res.evals += 1
+                            hk = h64(text, std, str(ic))
+                            res.states.add(hk)
+                            res.nontrivial.add(hk)
+                            o = try_parse(text, std, ignore_comments=ic)
+                            from mc.base import walk as _walk, Base as _Base
+
+                            okc = o.ok and same_code(o.tree, ref_text, cline, ic, ref)
+                            res.outcomes["long-comment-run:" + ("ok" if okc else "differs")] += 1
+                            if not okc:
+                                res.violation("C05|long-comment-run|%s" % ("rejected:" + o.klass() if not o.ok else "tree-differs"), "%s: %d lines %r before line %d of the fixed-form rendering, ignore_comments=%s: %s" % (pid, n, cline, at + 1, ic, (o.msg or "")[:200] if not o.ok else "tree differs from the free-form tree"), {"pid": pid, "tier": tier, "mode": "long", "n": n, "cline": cline, "at": at, "ic": ic}, cost=n)
         # (2) fixed renderings
         kk = k if (pid.startswith("A/") or k == 1 or not BOUNDS[tier].get("k2_only_templates")) else 1
         if focus:
@@ -184,5 +216,13 @@ def replay(case):
         mode = FortranStringReader(text).format.mode
         return [] if mode == "free" else [{"sig": sig("detect", "free-seen-as-" + mode, ["indent%d" % ind]), "detail": text}]
     ref = canon(try_parse(free, std).tree)
+    if case["mode"] == "long":
+        ch0, lay0 = explore.run(lambda ch: layout.render_fixed(prog, ch, fopts), ())
+        fl = lay0.text.rstrip("\n").split("\n")
+        text = "\n".join(fl[: case["at"]] + [case["cline"]] * case["n"] + fl[case["at"] :]) + "\n"
+        o = try_parse(text, std, ignore_comments=case["ic"])
+        if o.ok and same_code(o.tree, text_of(try_parse(free, std).tree), case["cline"], case["ic"], ref):
+            return []
+        return [{"sig": "C05|long-comment-run|%s" % ("rejected:" + o.klass() if not o.ok else "tree-differs"), "detail": (o.msg or "")[:200] if not o.ok else "tree differs"}]
     ch, lay = explore.run(lambda ch: layout.render_fixed(prog, ch, fopts), case["vec"])
     return [{"sig": sig(l, k, lay.features), "detail": d} for l, k, d in judge_fixed(lay, std, ref)]
